@@ -1,3 +1,4 @@
 import Proofs.Hyperslab
 import Proofs.Slice
 import Proofs.SliceTuple
+import Proofs.Stream
